@@ -79,6 +79,25 @@ class Ctx:
         return fn
 
 
+def normalize_helpers(prog, config="default"):
+    """See rules/inline.py: new (non-baseline) non-role helpers are inlined before any rule runs."""
+    from . import inline
+    from .roles import Roles, ROLES
+    if inline.load_baseline(config) is None:
+        return []
+    R = Roles(prog)
+    protect = set()
+    for r in ROLES:
+        try:
+            f = R.get(r)
+        except Exception:
+            f = None
+        if f is not None:
+            protect.add(f.id)
+    done = inline.normalize(prog, protect, config)
+    return done
+
+
 def import_rules(ctx, modname, rules):
     """Evaluate another property's rule set on the same program and adopt the obligations of the named rules: they are
     necessary conditions of this property as well (e.g. a record that can overrun its slot breaks the slot rule *and*
@@ -140,7 +159,10 @@ def run_property(prop, rule_fn, tier, configs, explanation, not_decided, assumpt
             facts, meta = extract.extract(cfg)
             metas.append(meta)
             prog = Program(facts)
+            inlined = normalize_helpers(prog, cfg)
             ctx = Ctx(prop, prog, cfg, tier)
+            if inlined:
+                ctx.note("helper normalisation: %d new non-role function(s) inlined into their callers: %s" % (len(inlined), ", ".join(sorted(x.rsplit("::", 1)[-1] for x in inlined))))
             try:
                 rule_fn(ctx)
             except AnchorError as e:
